@@ -32,7 +32,14 @@ def _extract():
         try:
             env = dict(os.environ, LD_LIBRARY_PATH=facts._sysroot() + "/lib", RUSTFLAGS=facts.CONFIGS["dev"], RUSTC_WRAPPER=facts.DRIVER,
                        MIRFACTS_OUT=tmp, MIRFACTS_CRATES="canary", CARGO_TARGET_DIR=target, CARGO_NET_OFFLINE="true")
-            r = subprocess.run(["cargo", "+nightly", "check", "--offline", "--lib"], cwd=CAN, env=env, stdout=subprocess.PIPE, stderr=subprocess.STDOUT, text=True)
+            for attempt in range(3):
+                r = subprocess.run(["cargo", "+nightly", "check", "--offline", "--lib"], cwd=CAN, env=env, stdout=subprocess.PIPE, stderr=subprocess.STDOUT, text=True)
+                if r.returncode == 0 and os.path.exists(os.path.join(tmp, "canary.json")):
+                    break
+                import time as _t
+                _t.sleep(2 + 3 * attempt)
+                shutil.rmtree(target, ignore_errors=True)
+                os.makedirs(target, exist_ok=True)
             if r.returncode != 0 or not os.path.exists(os.path.join(tmp, "canary.json")):
                 raise SystemExit("ENGINE-ERROR: canary crate does not build under the extractor\n" + r.stdout[-2000:])
             os.rename(tmp, out)
